@@ -1,0 +1,115 @@
+//go:build verif
+
+package jsonpatch
+
+// Verification hooks (build tag "verif"): events of the operation loop and of
+// the copy-size accounting, reported to functions a monitor installs. Calls are
+// correlated by the *ApplyOptions pointer of the Apply call, so monitors work
+// under concurrency as long as every call is given its own options value.
+
+// VerifInvariants is the result of walking the live document tree at the end
+// of an Apply call.
+type VerifInvariants struct {
+	Objects   int // parsed objects seen
+	Arrays    int // parsed arrays seen
+	BadKeys   int // objects whose key list is not a duplicate-free enumeration of their members
+	BadWhich  int // nodes whose kind tag disagrees with the pointers they hold
+	OtherOpts int // parsed objects that do not carry the options of this call
+}
+
+var VerifHooks struct {
+	ApplyBegin    func(options *ApplyOptions, ops int)
+	OpDone        func(options *ApplyOptions, kind string, err error)
+	ApplyEnd      func(options *ApplyOptions, inv VerifInvariants)
+	CopyAccounted func(options *ApplyOptions, size int, total int64)
+}
+
+func verifApplyBegin(options *ApplyOptions, p Patch) {
+	if f := VerifHooks.ApplyBegin; f != nil {
+		f(options, len(p))
+	}
+}
+
+func verifOpDone(options *ApplyOptions, op Operation, err error) {
+	if f := VerifHooks.OpDone; f != nil {
+		f(options, op.Kind(), err)
+	}
+}
+
+func verifCopyAccounted(options *ApplyOptions, size int, total int64) {
+	if f := VerifHooks.CopyAccounted; f != nil {
+		f(options, size, total)
+	}
+}
+
+func verifApplyEnd(options *ApplyOptions, pd container) {
+	f := VerifHooks.ApplyEnd
+	if f == nil {
+		return
+	}
+	var inv VerifInvariants
+	switch c := pd.(type) {
+	case *partialDoc:
+		verifWalkDoc(c, options, &inv, 0)
+	case *partialArray:
+		verifWalkAry(c, options, &inv, 0)
+	}
+	f(options, inv)
+}
+
+func verifWalkNode(n *lazyNode, options *ApplyOptions, inv *VerifInvariants, depth int) {
+	if n == nil || depth > 20000 {
+		return
+	}
+	switch n.which {
+	case eRaw:
+	case eDoc:
+		if n.doc == nil {
+			inv.BadWhich++
+			return
+		}
+		verifWalkDoc(n.doc, options, inv, depth+1)
+	case eAry:
+		if n.ary == nil {
+			inv.BadWhich++
+			return
+		}
+		verifWalkAry(n.ary, options, inv, depth+1)
+	default:
+		inv.BadWhich++
+	}
+}
+
+func verifWalkDoc(d *partialDoc, options *ApplyOptions, inv *VerifInvariants, depth int) {
+	if d == nil {
+		return
+	}
+	inv.Objects++
+	if d.opts != options {
+		inv.OtherOpts++
+	}
+	seen := make(map[string]bool, len(d.keys))
+	bad := len(d.keys) != len(d.obj)
+	for _, k := range d.keys {
+		if _, ok := d.obj[k]; !ok || seen[k] {
+			bad = true
+		}
+		seen[k] = true
+	}
+	if bad {
+		inv.BadKeys++
+	}
+	for _, v := range d.obj {
+		verifWalkNode(v, options, inv, depth)
+	}
+}
+
+func verifWalkAry(a *partialArray, options *ApplyOptions, inv *VerifInvariants, depth int) {
+	if a == nil {
+		return
+	}
+	inv.Arrays++
+	for _, v := range a.nodes {
+		verifWalkNode(v, options, inv, depth)
+	}
+}
